@@ -4,6 +4,7 @@
 package brokerlab
 
 import (
+	"encoding/json"
 	"fmt"
 	"sort"
 	"strings"
@@ -199,25 +200,52 @@ func runC02(rec *vk.Rec, ci int) {
 		}
 		rec.Violation(ci, matcher, fmt.Sprintf("mqtt=%v step %d: %s", mqtt, len(steps), desc), map[string]interface{}{"mqtt": mqtt, "clients": nc, "steps": steps})
 	}
-	// expectErrIn checks the publishes that arrived between SUBSCRIBE and SUBACK.
+	// expectErrIn checks the publishes that arrived between SUBSCRIBE and SUBACK. The statement asks for "answered with
+	// an error", not for a particular status: any emitter/error/ notification of the 4xx/5xx class counts, the documented
+	// status is only recorded (counter error_status_as_documented), and nothing else may arrive.
+	isErr := func(topic, payload string) (bool, int) {
+		if topic != "emitter/error/" {
+			return false, 0
+		}
+		var f struct {
+			Status int `json:"status"`
+		}
+		if json.Unmarshal([]byte(payload), &f) != nil {
+			return false, 0
+		}
+		return f.Status >= 400 && f.Status <= 599, f.Status
+	}
 	expectErrIn := func(between []Pub, status int, what string) {
-		n := 0
+		n, other := 0, 0
 		for _, p := range between {
-			if p.Topic == "emitter/error/" && strings.Contains(p.Payload, fmt.Sprintf("\"status\":%d", status)) {
+			if ok, st := isErr(p.Topic, p.Payload); ok {
 				n++
+				if st == status {
+					rec.Inc("error_status_as_documented")
+				}
+			} else {
+				other++
 			}
 		}
-		if n != 1 || len(between) != 1 {
-			fail("error-reply", fmt.Sprintf("%s: expected exactly one emitter/error/ with status %d before the SUBACK, got %v", what, status, between), nil)
+		if n < 1 || other != 0 {
+			fail("error-reply", fmt.Sprintf("%s: expected an emitter/error/ notification (documented status %d) and nothing else before the SUBACK, got %v", what, status, between), nil)
 		}
 		failing++
 		rec.Inc("failing_requests")
 	}
-	// expectErr checks that the client got exactly one error notification of the given status.
+	// expectErr checks that the client got an error notification (and nothing but error notifications).
 	expectErr := func(c *c02Client, status int, what string) {
 		errs := c.cl.TakeErrors()
-		if len(errs) != 1 || errs[0].Status != status {
-			fail("error-reply", fmt.Sprintf("%s: expected one emitter/error/ with status %d, got %+v", what, status, errs), nil)
+		bad := len(errs) < 1
+		for _, e := range errs {
+			if e.Status < 400 || e.Status > 599 {
+				bad = true
+			} else if e.Status == status {
+				rec.Inc("error_status_as_documented")
+			}
+		}
+		if bad {
+			fail("error-reply", fmt.Sprintf("%s: expected an emitter/error/ notification (documented status %d), got %+v", what, status, errs), nil)
 		}
 		failing++
 		rec.Inc("failing_requests")
